@@ -98,7 +98,7 @@ def run(ctx, chk):
                    msg="dropping the File would release the advisory lock while the Database is alive")
     openers = M(r"std::fs::OpenOptions::(write|append|create|create_new)|std::fs::File::(create|create_new|options)")
     sites = [(bid, root, b) for bid, root, b in O.callers_of(openers) if P.bodies[bid].krate == "rawdb"]
-    bad = [(bid, b) for bid, root, b in sites if root not in (OPEN, ROPEN)]
+    bad = [(bid, b) for bid, root, b in sites if root not in (OPEN, ROPEN) and not O.private_part_of(root, {OPEN, ROPEN})]
     if len(sites) < 4:
         raise AnchorMissing("expected >= 4 write-open option calls in rawdb, found %d" % len(sites))
     chk.oblige("B18.3 only_callers(rawdb: open-for-writing) = {open_with_min_len, Regions::open} [%d sites]" % len(sites),
@@ -141,6 +141,31 @@ def run(ctx, chk):
                    "failure edge of try_lock]" % (fn, len(fail_region)), bool(tl) and bool(fail_region) and not bad,
                    detail={"sites": bad}, key="B18.6|%s|refusal-path-mutates" % fn,
                    msg="a refused open must neither modify nor remove the holder's files")
+    # B18.7 teardown releases the locks in the reverse order of open(): `open` locks the data file first and the
+    # regions file second, and a racing open that wins the data lock already resizes the file before it is refused at
+    # the regions lock - so the data file must be the LAST of the two to be closed (fields drop in declaration order)
+    adt = P.adts.get("rawdb::DatabaseInner")
+    if adt is None:
+        raise AnchorMissing("ADT rawdb::DatabaseInner not found")
+    fn_ = [f["name"] for f in adt["variants"][0]["fields"]]
+    chk.oblige("B18.7 DatabaseInner drops `regions` (its locked file) before `file` (the locked data file): field order %s"
+               % fn_, "file" in fn_ and "regions" in fn_ and fn_.index("regions") < fn_.index("file"),
+               key="B18.7|DatabaseInner|drop-order",
+               msg="if the data file is unlocked first, an open() racing with the last drop takes the data lock, grows "
+                   "and syncs the file, and only then is refused at the regions lock: a refused open modified the files")
+    # B18.4b the condition under which the last drop joins the background tasks counts STRONG handles only (every
+    # Region holds a Weak<DatabaseInner>; weak-sensitive tests are false for any database that has a region)
+    dropb = O.body("<rawdb::Database as core::ops::drop::Drop>::drop")
+    import props.c17 as c17
+    weak_sensitive = re.compile(r"alloc::sync::Arc::<T(, A)?>::(get_mut|try_unwrap|into_inner|weak_count|is_unique)")
+    badg = []
+    for sb in O.sites(dropb, M(r"rawdb::Database::sync_bg_tasks")):
+        for g in c17.guards_of(ctx, dropb, sb):
+            badg += [c for c in g["calls"] if weak_sensitive.fullmatch(c)]
+    chk.oblige("B18.4b <Database as Drop>::drop decides 'last handle' without weak-reference-sensitive Arc tests",
+               not badg, detail={"calls": sorted(set(badg))}, key="B18.4b|drop|weak-sensitive-last-handle-test",
+               msg="Arc::get_mut / try_unwrap fail while any Region (which holds a Weak) exists: the last drop would not "
+                   "join the background tasks and the locks would be released under a running task")
     # B18.4 the last handle's drop waits for background work, and background work does not keep the instance alive
     drop = O.body("<rawdb::Database as core::ops::drop::Drop>::drop")
     r = O.reach(drop.id)
